@@ -1048,7 +1048,12 @@ func ruleC14JoinSidesAdopted(c *Ctx) {
 				}
 				if e.Kind == "go" {
 					if g, ok := e.Instr.(*ssa.Go); ok {
-						if mc, isMC := g.Call.Value.(*ssa.MakeClosure); isMC {
+						mc, isMC := g.Call.Value.(*ssa.MakeClosure)
+						if lit, isFn := g.Call.Value.(*ssa.Function); isFn && lit.Parent() != nil {
+							// a function literal that captures nothing (everything it needs is passed as an argument)
+							mc, isMC = &ssa.MakeClosure{Fn: lit}, true
+						}
+						if isMC {
 							waits, done := false, false
 							allInstrs(mc.Fn.(*ssa.Function), func(_ *ssa.BasicBlock, in ssa.Instruction) {
 								ci, isCall := in.(ssa.CallInstruction)
@@ -1059,6 +1064,18 @@ func ruleC14JoinSidesAdopted(c *Ctx) {
 								if strings.HasSuffix(name, "sync.WaitGroup).Wait") {
 									// which captured variable: the free variable bound to this side
 									at := NewTB().Of(ci.Common().Args[0]).String()
+									// ... or the parameter of the function literal that receives this side as the go statement's argument
+									for pi, prm := range mc.Fn.(*ssa.Function).Params {
+										if pi < len(g.Call.Args) && (strings.Contains(at, "p:"+prm.Name()+")") || strings.Contains(at, "(p:"+prm.Name()+")") || strings.Contains(at, "p:"+prm.Name()+".")) {
+											arg := g.Call.Args[pi]
+											if u, isU := arg.(*ssa.UnOp); isU && u.Op == token.MUL && cellHolds(u.X, side) {
+												waits = true
+											}
+											if arg == ssa.Value(side) {
+												waits = true
+											}
+										}
+									}
 									for bi, bnd := range mc.Bindings {
 										fvn := mc.Fn.(*ssa.Function).FreeVars[bi].Name()
 										if strings.Contains(at, "fv:"+fvn) || strings.Contains(at, "freevar:"+fvn) || strings.Contains(at, fvn) {
